@@ -57,7 +57,7 @@ func genPipeline(t *rapid.T, sc stackCase, maxLen int, now int64) []wire.Cmd {
 			c = wire.Cmd{Kind: wire.Stat}
 		case r <= 5 && !sc.Binary:
 			c = wire.Cmd{Kind: wire.RawBytes, Raw: []byte(rapid.SampledFrom(badTextLines).Draw(t, "badLine"))}
-		case r == 3 && sc.Binary && sc.Cfg.Shape == "l1only" && sc.Cfg.L1 == "std":
+		case r == 3 && sc.Binary && sc.Cfg.Shape == "l1only" && sc.Cfg.L1 != "chunked": // chunked.GetE panics on purpose ("not supported in Rend chunked mode")
 			c = wire.Cmd{Kind: wire.GetE, Keys: []string{rapid.SampledFrom(keys).Draw(t, "gkey")}, NoopEnd: rapid.Bool().Draw(t, "noopEnd")}
 		default:
 			c = genCmd(t, opts, now)
